@@ -552,6 +552,76 @@ def check_binary_sides(prog, rep):
                       'other must be transposed to the label order of self first', f0.lineno)
 
 
+def check_last_wins(prog, rep):
+    """A name assigned in every iteration of a loop from the loop variable, never read inside the
+    loop and read after it keeps only the value of the last iteration -- e.g. a result dtype
+    "accumulated" as promote(first, a) instead of promote(dtype, a)."""
+    n = 0
+    for rel in (NPC, 'tenpy/linalg/charges.py'):
+        m = prog.module(rel)
+        for q, f in m.functions.items():
+            for lp in ast.walk(f):
+                if not isinstance(lp, ast.For):
+                    continue
+                n += 1
+                if any(isinstance(x, (ast.Break, ast.Return)) for x in ast.walk(lp)):
+                    continue
+                tg = {x.id for x in ast.walk(lp.target) if isinstance(x, ast.Name)}
+                for st in lp.body:
+                    if not (isinstance(st, ast.Assign) and len(st.targets) == 1 and
+                            isinstance(st.targets[0], ast.Name)):
+                        continue
+                    x = st.targets[0].id
+                    if x in names_in(st.value) or not (names_in(st.value) & tg):
+                        continue
+                    inside = [y for y in ast.walk(lp) if isinstance(y, ast.Name) and y.id == x and
+                              isinstance(y.ctx, ast.Load)]
+                    after = [y for y in ast.walk(f) if isinstance(y, ast.Name) and y.id == x and
+                             isinstance(y.ctx, ast.Load) and y.lineno > lp.end_lineno]
+                    if inside or not after:
+                        continue
+                    rep.violation('ACCUM-last-wins', m, q, 'last-wins:' + x,
+                                  '`%s` inside `for %s in %s` is overwritten in every iteration '
+                                  'and only read after the loop (`%s`): the contributions of all '
+                                  'but the last element are lost' %
+                                  (key_text(st)[:70], unparse(lp.target), unparse(lp.iter)[:30],
+                                   key_text(_stmt(after[0]))[:50]), st.lineno)
+    rep.instance('ACCUM-last-wins', {'loops_examined': n})
+    return n
+
+
+def check_setitem_zero(prog, rep):
+    """self[inds] = other: blocks of the addressed part that `other` does not store are zero in
+    `other`, so the addressed part is zeroed unconditionally before the blocks of `other` are
+    copied in."""
+    m = prog.module(NPC)
+    f = m.func('Array._advanced_setitem_npc')
+    zero = [st for st in ast.walk(f) if isinstance(st, ast.Assign) and
+            isinstance(st.targets[0], ast.Subscript) and isinstance(st.value, ast.Constant) and
+            st.value.value in (0, 0.0)]
+    copy_ = [st for st in ast.walk(f) if isinstance(st, ast.Assign) and
+             isinstance(st.targets[0], ast.Subscript) and isinstance(st.value, ast.Name) and
+             (iteration_source(f, st.value.id, at=st) is not None and
+              'other' in unparse(iteration_source(f, st.value.id, at=st)))]
+    rep.instance('SETITEM-zero-first', {'zeroing': [key_text(s) for s in zero],
+                                        'copying': [key_text(s) for s in copy_]})
+    if not zero or not copy_:
+        raise AnalysisError('_advanced_setitem_npc: zeroing / copying stores not found')
+    zloop = parent(zero[0])
+    cloop = parent(copy_[0])
+    gz = {(t, pol) for t, pol, _ in guards_of(f, zloop if isinstance(zloop, ast.For) else zero[0])}
+    gc = {(t, pol) for t, pol, _ in guards_of(f, cloop if isinstance(cloop, ast.For)
+                                              else copy_[0])}
+    g = [(t, pol, None) for t, pol in sorted(gz - gc)]      # conditions on the zeroing alone
+    src = unparse(zloop.iter) if isinstance(zloop, ast.For) else ''
+    if g or 'self_part' not in src or zero[0].lineno > copy_[0].lineno:
+        rep.violation('SETITEM-zero-first', m, 'Array._advanced_setitem_npc', 'zeroing-conditional',
+                      'the addressed part must be set to zero for EVERY stored block of it before '
+                      'the blocks of `other` are copied (conditions found: %s): a block that '
+                      '`other` does not store would keep its old values' %
+                      [t for t, _, _ in g], zero[0].lineno)
+
+
 def run(prog, rep, tier):
     rep.rule('AXIS-*', 'in functions that re-index axes, legs / labels / block-index columns / '
              'blocks use one index set; insertions happen at one position')
@@ -561,6 +631,9 @@ def run(prog, rep, tier):
     check_axis_carriers(prog, rep)
     check_contraction_labels(prog, rep)
     check_binary_sides(prog, rep)
+    if check_last_wins(prog, rep) < 100:
+        raise AnalysisError('ACCUM-last-wins: loops of np_conserved.py not found')
+    check_setitem_zero(prog, rep)
     # the two-pointer merge / inner product trust the cached claim "block indices are lexsorted":
     # its truthfulness is a necessary condition for the linear-combination clause (rules of C02)
     from .c02 import check_flag_q
